@@ -194,8 +194,15 @@ def grp_pauli(qp, np, XC, RS, spec, ops, plops):
     # sums
     a, b, c = (wires + wires)[:3]
     sums = [([(1.0, "Z", [a]), (1.0, "X", [b])]), ([(0.5, "ZZ", [a, b]), (-1.5, "Y", [c])]), ([(2.0, "XY", [c, a]), (0.25, "Z", [a]), (1.0, "YZ", [a, b])])]
-    for terms in sums:
-        H = qp.sum(*[qp.s_prod(cf, pl_word(qp, w, ws)) for cf, w, ws in terms])
+    # terms whose own wire order DISAGREES with the order in which the whole observable first meets the wires
+    sums += [([(1.0, "Z", [b]), (1.0, "XY", [a, b])]), ([(1.0, "Y", [c]), (0.5, "XZ", [a, c]), (2.0, "ZXY", [b, a, c])]),
+             ([(1.5, "Z", [c]), (1.0, "Y", [b]), (-0.5, "XYZ", [a, b, c])])]
+    forms = [(terms, "sum") for terms in sums] + [(terms, "ham") for terms in sums[2:]]
+    for terms, form in forms:
+        if form == "ham":
+            H = qp.Hamiltonian([cf for cf, _, _ in terms], [pl_word(qp, w, ws) for _, w, ws in terms])
+        else:
+            H = qp.sum(*[qp.s_prod(cf, pl_word(qp, w, ws)) for cf, w, ws in terms])
         allw = sorted({x for _, _, ws in terms for x in ws})
         M = sum(cf * RS.embed(XC.word_matrix(w), ws, allw) for cf, w, ws in terms)
         e = XC.obs_expval(st, M, allw, order)
